@@ -262,6 +262,8 @@ def r_zero_henry_mono(ctx: Ctx, model, tr, lists):
 
 
 def run(ctx: Ctx):
+    from ..sites import model_methods_stateless as _mms
+    _mms(ctx, load(ctx.root), "C10", "M-fresh")
     model = load(ctx.root)
     tr = Translator(model)
     ctx.assume("sympy's simplification is sound (a residual that normalises to 0 is identically 0 on the declared domain)")
@@ -272,7 +274,7 @@ def run(ctx: Ctx):
     r_numinv(ctx, model, tr)
     r_zero_henry_mono(ctx, model, tr, lists)
     ctx.analysed["models"] = lists["_MODELS"]
-    from ..sites import no_memoisation
+    from ..sites import model_methods_stateless, no_memoisation
     ctx.rule("M-fresh: no caching decorator on any function of pygaps.modelling.")
     no_memoisation(ctx, load(ctx.root), "C10", "M-fresh", ('pygaps.modelling.',),
                    "model equations must be evaluated with the current parameters: a cached loading/pressure survives a refit or a parameter change")
